@@ -32,15 +32,39 @@ func (a *Num) Cmp(b *Num) int {
 }
 
 func (c *OpContext) Add(a, b *Num) Value {
-	return numOp(c, internal.BaseContext.Add, a, b)
+	return numOp(c, arithContext(a, b).Add, a, b)
 }
 
 func (c *OpContext) Sub(a, b *Num) Value {
-	return numOp(c, internal.BaseContext.Sub, a, b)
+	return numOp(c, arithContext(a, b).Sub, a, b)
 }
 
 func (c *OpContext) Mul(a, b *Num) Value {
-	return numOp(c, internal.BaseContext.Mul, a, b)
+	return numOp(c, arithContext(a, b).Mul, a, b)
+}
+
+// arithContext returns the context to use for a + b, a - b and a * b.
+// Integer arithmetic is exact: the default 34-digit precision would round
+// a sum or product of integers that needs more digits.
+func arithContext(a, b *Num) *apd.Context {
+	ctx := &internal.BaseContext.Context
+	if a.K == IntKind && b.K == IntKind {
+		// The result of +, - and * never has more digits than the
+		// operands have together, plus one.
+		if n := integerDigits(&a.X) + integerDigits(&b.X) + 1; n > int64(ctx.Precision) {
+			ctx = ctx.WithPrecision(uint32(n))
+		}
+	}
+	return ctx
+}
+
+// integerDigits returns the number of digits of the integer part of x.
+func integerDigits(x *apd.Decimal) int64 {
+	n := x.NumDigits()
+	if x.Exponent > 0 {
+		n += int64(x.Exponent)
+	}
+	return n
 }
 
 func (c *OpContext) Quo(a, b *Num) Value {
@@ -100,12 +124,19 @@ func intDivOp(c *OpContext, fn intFunc, a, b *Num) Value {
 		return c.NewErrf("division by zero")
 	}
 
+	// Use a context that holds both operands exactly: the default precision
+	// would round integers of more than 34 digits.
+	ctx := &internal.BaseContext.Context
+	if n := max(integerDigits(&a.X), integerDigits(&b.X)) + 1; n > int64(ctx.Precision) {
+		ctx = ctx.WithPrecision(uint32(n))
+	}
+
 	var x, y apd.Decimal
-	_, _ = internal.BaseContext.RoundToIntegralValue(&x, &a.X)
+	_, _ = ctx.RoundToIntegralValue(&x, &a.X)
 	if x.Negative {
 		x.Coeff.Neg(&x.Coeff)
 	}
-	_, _ = internal.BaseContext.RoundToIntegralValue(&y, &b.X)
+	_, _ = ctx.RoundToIntegralValue(&y, &b.X)
 	if y.Negative {
 		y.Coeff.Neg(&y.Coeff)
 	}
